@@ -272,6 +272,17 @@ pub fn gen_count(c: &mut dyn Choices, len_hint: usize, min: usize) -> usize {
   }
 }
 
+/// `base + pick(span)`, with a few much larger alternatives at the high end of the same pick (so recorded tapes keep
+/// their meaning): thresholds, capacities and narrow counters in the code under test sit at 32, 64, 128, 256, ...
+pub fn pick_size(c: &mut dyn Choices, base: usize, span: usize, bigs: &[usize]) -> usize {
+  let k = c.pick(span + bigs.len());
+  if k < span {
+    base + k
+  } else {
+    bigs[k - span]
+  }
+}
+
 /// a long item sequence from a handful of picks (keeps tapes short and shrinkable):
 /// constant, counting, cycling, or pseudo-random over the alphabet
 pub fn gen_long_items(c: &mut dyn Choices, n: usize, alphabet: usize) -> Vec<V> {
@@ -561,7 +572,7 @@ pub fn gen_script(c: &mut dyn Choices, n_inputs: usize, max_len: usize, alphabet
 /// (Called with picks that come *after* every other pick of the case, so that recorded tapes keep their meaning.)
 pub fn lengthen_script(c: &mut dyn Choices, script: &[Step]) -> Vec<Step> {
   let block: Vec<Step> = script.iter().filter(|s| !matches!(s, Step::Emit(_, e) if e.is_terminal())).take(5).cloned().collect();
-  let reps = 6 + c.pick(10);
+  let reps = pick_size(c, 6, 10, &[30, 60]);
   let mut s = vec![];
   for _ in 0..reps {
     s.extend(block.iter().cloned());
